@@ -7,49 +7,57 @@ A site is a chain of applications `cur, anc₀, anc₁, …, root` (dispatcher s
 mapper side: a position `MPos` whose `up` chain names the entry of each ancestor under which the
 next application is mounted).  `Consistent` checks, **level by level and only locally**:
 
-* innermost: the template of `key` instantiated with the parameters is routed by `cur` to handler `id`
-  with exactly those parameters;
-* every ancestor: its mount template wrapped around the URL so far is taken first (no earlier
-  sibling takes or declines it) by the `mounted` option of the next application, whose selected
-  group is the URL so far.
+* innermost: the template of `key` instantiated with the parameters (and keyword parameters) is
+  taken by some option of `cur`;
+* every ancestor: its mount template (which may itself contain keyword placeholders) wrapped around
+  the URL so far is taken first by the `mounted` option of the next application, whose selected
+  group is the URL so far;
+* the events observed on the way down (declining generic handlers, then the handler) are `expected`.
 
 The theorem `mapper_dispatch_consistent` composes these local facts over any depth.
 -/
 namespace Cppcms.C20
 open Cppcms
 
-/-- `o`'s first taking option for `u` is the mount of `child`, handing it `uChild`; nothing declined before -/
+/-- what generic handlers that ran and declined before the first taking option of `o` observed -/
+def stepBefore (rx : Rx) (req : Option Bytes) (o : Opts) (u : Bytes) : List Event :=
+  (o.level.takeWhile fun e => !Spec.takes rx req u e).filterMap (Spec.declined rx req u)
+
+/-- `o`'s first taking option for `u` is the mount of `child`, handing it `uChild` -/
 def stepOk (rx : Rx) (req : Option Bytes) (o child : Opts) (u uChild : Bytes) : Bool :=
   match o.level.find? (Spec.takes rx req u) with
   | some (.mount re sel c) =>
     c == child &&
     (match Spec.whole rx re u with
      | some raw => Spec.groupStr u raw sel == uChild
-     | none => false) &&
-    ((o.level.takeWhile fun e => !Spec.takes rx req u e).filterMap (Spec.declined rx req u)).isEmpty
+     | none => false)
   | _ => false
 
-def consistentUp (rx : Rx) (req : Option Bytes) (helpers overrides : List (Bytes × Bytes)) :
-    List (MNode × Bytes) → List Opts → Opts → Bytes → Bool
-  | [], [], _, _ => true
-  | (n, name) :: up, o :: os, child, uChild =>
+/-- walk up the ancestors: `evs` = what has been observed from `child` downwards when it is given `uChild` -/
+def consistentUp (rx : Rx) (req : Option Bytes) (helpers overrides : List (Bytes × Bytes)) (expected : List Event) :
+    List (MNode × Bytes) → List Opts → Opts → Bytes → List Event → Bool
+  | [], [], _, _, evs => evs == expected
+  | (n, name) :: up, o :: os, child, uChild, evs =>
     match getEntry n name 1 with
     | .ok (t, _) =>
       match writeTpl t [uChild] helpers overrides with
-      | .ok u => stepOk rx req o child u uChild && consistentUp rx req helpers overrides up os o u
+      | .ok u => stepOk rx req o child u uChild &&
+                 consistentUp rx req helpers overrides expected up os o u (stepBefore rx req o u ++ evs)
       | .error _ => false
     | .error _ => false
-  | _, _, _, _ => false
+  | _, _, _, _, _ => false
 
-/-- `args` = what the handler is expected to receive -/
+/-- `expected` = everything the handlers are expected to observe when the mapped URL is routed from the
+root: normally `[.ran id args]`; declining generic handlers on the way (e.g. observers placed in front of
+a mount, which see the groups of the ancestor's pattern) contribute their `.rejected` events in order. -/
 def Consistent (rx : Rx) (req : Option Bytes) (ctx : MCtx) (overrides : List (Bytes × Bytes)) (p : MPos) (cur : Opts) (ancestors : List Opts)
-    (key : Bytes) (params : List Bytes) (id : Nat) (args : List (Option Bytes)) : Bool :=
+    (key : Bytes) (params : List Bytes) (expected : List Event) : Bool :=
   match getEntry p.cur key params.length with
   | .ok (t, _) =>
     match writeTpl t params ctx.helpers overrides with
     | .ok u =>
-      Spec.route rx req (cur.depth + 1) cur u == (true, [.ran id args]) &&
-      consistentUp rx req ctx.helpers overrides p.up ancestors cur u
+      let r := Spec.route rx req (cur.depth + 1) cur u
+      r.1 && consistentUp rx req ctx.helpers overrides expected p.up ancestors cur u r.2
     | .error _ => false
   | .error _ => false
 
